@@ -392,6 +392,23 @@ func prepare(src, baseExplain string, soft, freeze bool, probe func(string) stri
 					t.flippable = out == baseExplain || !echoEqual(baseExplain, out, t.text, f)
 				}
 			}
+		}
+		// a special-float keyword (inf, nan) that does not stand in a name position (after AS or a dot, before a
+		// call parenthesis) is a LITERAL: a keyword used as a keyword, whatever EXPLAIN echoes
+		if (t.sig.kind == token.INF || t.sig.kind == token.NAN) && !t.flippable {
+			prevK, nextK := token.EOF, token.EOF
+			if i > 0 {
+				prevK = st.toks[i-1].sig.kind
+			}
+			if i+1 < len(st.toks) {
+				nextK = st.toks[i+1].sig.kind
+			}
+			if prevK != token.AS && prevK != token.DOT && nextK != token.LPAREN && nextK != token.DOT &&
+				!strings.Contains(baseExplain, "(alias "+t.text+")") && !strings.Contains(baseExplain, "Identifier "+t.text) {
+				t.flippable = true
+			}
+		}
+		switch {
 		case soft && t.sig.kind == token.IDENT && !t.sig.quoted && isIdentShaped(t.text):
 			// a name is echoed at the start of a word (count(DISTINCT x) prints countDistinct);
 			// a contextual keyword is not echoed, or only inside a word (DAY -> toIntervalDay)
